@@ -234,11 +234,26 @@ archive_entry_clone(struct archive_entry *entry)
 		xp = xp->next;
 	}
 
-	/* Copy sparse data over. */
+	/*
+	 * Copy sparse data over.  The blocks were validated against the
+	 * size when they were added; copy them as they are, so that the
+	 * clone has the same blocks even if the size was changed later.
+	 */
 	sp = entry->sparse_head;
 	while (sp != NULL) {
-		archive_entry_sparse_add_entry(entry2,
-		    sp->offset, sp->length);
+		struct ae_sparse *sp2 = malloc(sizeof(*sp2));
+		if (sp2 == NULL) {
+			archive_entry_free(entry2);
+			return (NULL);
+		}
+		sp2->offset = sp->offset;
+		sp2->length = sp->length;
+		sp2->next = NULL;
+		if (entry2->sparse_tail == NULL)
+			entry2->sparse_head = sp2;
+		else
+			entry2->sparse_tail->next = sp2;
+		entry2->sparse_tail = sp2;
 		sp = sp->next;
 	}
 
